@@ -8,13 +8,20 @@ package harness
 
 import (
 	"bytes"
+	"errors"
+	"io"
+	"log/slog"
+	"os"
+	"reflect"
+	"runtime"
 
 	"github.com/xinchentechnote/fin-proto-go/codec"
 	"pgregory.net/rapid"
 )
 
 type PreOp struct {
-	Kind string   `json:"kind"` // enc | dec | unreg
+	Kind string   `json:"kind"`        // enc | dec | unreg | swapsvc | encfail | procs | slogdebug | setenv
+	K    int      `json:"k,omitempty"` // procs: GOMAXPROCS for the case; encfail: bytes the foreign part writes before failing
 	Type string   `json:"type,omitempty"`
 	V    *Value   `json:"v,omitempty"`
 	W    HexBytes `json:"w,omitempty"`
@@ -25,6 +32,8 @@ type PreOp struct {
 // returns a function that restores any checksum service it unregistered.
 func runPrelude(pre []PreOp) func() {
 	saved := map[string]any{}
+	swapped := map[string]bool{}
+	var undo []func()
 	for i := range pre {
 		op := &pre[i]
 		switch op.Kind {
@@ -36,6 +45,46 @@ func runPrelude(pre []PreOp) func() {
 			obj := regByName[op.Type].New()
 			buf := bytes.NewBuffer(append([]byte{}, op.W...))
 			_, _, _ = safely(func() error { return DecodeAny(obj, buf) })
+		case "procs":
+			old := runtime.GOMAXPROCS(max(1, op.K))
+			undo = append(undo, func() { runtime.GOMAXPROCS(old) })
+		case "slogdebug":
+			old := slog.Default()
+			slog.SetDefault(slog.New(slog.NewTextHandler(io.Discard, &slog.HandlerOptions{Level: slog.LevelDebug})))
+			undo = append(undo, func() { slog.SetDefault(old) })
+		case "setenv":
+			name := op.Algo
+			oldv, had := os.LookupEnv(name)
+			os.Setenv(name, string(op.W))
+			undo = append(undo, func() {
+				if had {
+					os.Setenv(name, oldv)
+				} else {
+					os.Unsetenv(name)
+				}
+			})
+		case "swapsvc": // the named service is replaced by an equivalent one that READS its input instead of peeking at it
+			_, _, _ = safely(func() error {
+				if s, ok := codec.Get(op.Algo); ok {
+					if _, mine := s.(interface{ readerStyle() }); !mine {
+						saved[op.Algo] = s
+						codec.Remove(op.Algo)
+						codec.Registry(newReaderService(op.Algo))
+						swapped[op.Algo] = true
+					}
+				}
+				return nil
+			})
+		case "encfail": // a frame/extended message whose part is an application-defined codec that fails after writing K bytes
+			if ts := Types[op.Type]; ts != nil && ts.DynIndex() >= 0 {
+				obj := regByName[op.Type].New()
+				fv := reflect.ValueOf(obj).Elem().FieldByName(ts.Fields[ts.DynIndex()].Go)
+				if fv.IsValid() && fv.CanSet() {
+					fv.Set(reflect.ValueOf(&PartialFail{N: op.K}))
+					var buf bytes.Buffer
+					_, _, _ = safely(func() error { return EncodeAny(obj, &buf) })
+				}
+			}
 		case "unreg":
 			_, _, _ = safely(func() error {
 				if s, ok := codec.Get(op.Algo); ok {
@@ -50,11 +99,17 @@ func runPrelude(pre []PreOp) func() {
 		for name, s := range saved {
 			name, s := name, s
 			_, _, _ = safely(func() error {
+				if swapped[name] {
+					codec.Remove(name)
+				}
 				if _, ok := codec.Get(name); !ok {
 					codec.Registry(s)
 				}
 				return nil
 			})
+		}
+		for i := len(undo) - 1; i >= 0; i-- {
+			undo[i]()
 		}
 	}
 }
@@ -77,11 +132,19 @@ func genPrelude(rt *rapid.T, focus string, registry bool) ([]PreOp, int) {
 		case 4:
 			tn = rapid.SampledFrom(TypeNames).Draw(rt, "pre.type")
 		}
-		kinds := []string{"enc", "enc", "dec", "dec"}
+		kinds := []string{"enc", "enc", "enc", "dec", "dec", "dec", "env", "encfail"}
 		if registry {
 			kinds = append(kinds, "unreg")
 		}
 		switch rapid.SampledFrom(kinds).Draw(rt, "pre.kind") {
+		case "env":
+			ops = append(ops, genEnvKnob(rt))
+		case "encfail":
+			holder := frameOf(Types[focus].Module)
+			if Types[tn].DynIndex() >= 0 {
+				holder = tn
+			}
+			ops = append(ops, PreOp{Kind: "encfail", Type: holder, K: rapid.SampledFrom([]int{0, 1, 7, 28, 200}).Draw(rt, "pre.failafter")})
 		case "enc":
 			o := GenOpts{Mode: Arbitrary, MaxList: 300, BigProb: 30}
 			v, _ := GenValue(rt, tn, o)
@@ -106,4 +169,64 @@ func genPrelude(rt *rapid.T, focus string, registry bool) ([]PreOp, int) {
 		}
 	}
 	return ops, hint
+}
+
+// PartialFail: an application-defined part (body/extension) that writes N bytes and then refuses.
+type PartialFail struct{ N int }
+
+func (p *PartialFail) Encode(buf *bytes.Buffer) error {
+	buf.Write(bytes.Repeat([]byte{0xEE}, p.N))
+	return errors.New("application-defined part refuses to encode")
+}
+func (p *PartialFail) Decode(buf *bytes.Buffer) error { return errors.New("not decodable") }
+
+// reader-style checksum services: same algorithms (the harness' references), but they consume the buffer they are given.
+type readerSvc16 struct{ algo string }
+type readerSvc32 struct{ algo string }
+type readerSvcI32 struct{ algo string }
+
+func drain(data *bytes.Buffer) []byte {
+	b := make([]byte, data.Len())
+	_, _ = io.ReadFull(data, b)
+	return b
+}
+func (s *readerSvc16) Algorithm() string { return s.algo }
+func (s *readerSvc16) readerStyle()      {}
+func (s *readerSvc16) Calc(data *bytes.Buffer) uint16 {
+	return uint16(refChecksum(s.algo, drain(data)))
+}
+func (s *readerSvc32) Algorithm() string { return s.algo }
+func (s *readerSvc32) readerStyle()      {}
+func (s *readerSvc32) Calc(data *bytes.Buffer) uint32 {
+	return uint32(refChecksum(s.algo, drain(data)))
+}
+func (s *readerSvcI32) Algorithm() string             { return s.algo }
+func (s *readerSvcI32) readerStyle()                  {}
+func (s *readerSvcI32) Calc(data *bytes.Buffer) int32 { return int32(refChecksum(s.algo, drain(data))) }
+
+func newReaderService(algo string) any {
+	switch algo {
+	case "CRC16":
+		return &readerSvc16{algo}
+	case "SZSE_BIN":
+		return &readerSvcI32{algo}
+	}
+	return &readerSvc32{algo}
+}
+
+// genEnvKnob draws one process-wide setting a library might consult.
+func genEnvKnob(rt *rapid.T) PreOp {
+	kinds := []string{"procs", "procs", "slogdebug", "swapsvc"}
+	if len(Dict.EnvNames) > 0 {
+		kinds = append(kinds, "setenv", "setenv")
+	}
+	switch rapid.SampledFrom(kinds).Draw(rt, "env.kind") {
+	case "procs":
+		return PreOp{Kind: "procs", K: rapid.SampledFrom([]int{1, 1, 2, 3}).Draw(rt, "env.procs")}
+	case "slogdebug":
+		return PreOp{Kind: "slogdebug"}
+	case "setenv":
+		return PreOp{Kind: "setenv", Algo: rapid.SampledFrom(Dict.EnvNames).Draw(rt, "env.name"), W: HexBytes(rapid.SampledFrom([]string{"1", "true", "debug", ""}).Draw(rt, "env.val"))}
+	}
+	return PreOp{Kind: "swapsvc", Algo: rapid.SampledFrom(c14Algos).Draw(rt, "env.algo")}
 }
